@@ -1,6 +1,7 @@
 // Command c12 binds spec/SQLTx.tla (properties C12 and C13) to the real embedded/sql engine.
 //
 //	c12 -replay f.json   replay TLC behaviours step by step, compare every observation with the design
+//	c12 -free t.ndjson   seeded concurrent sessions run freely; every statement is logged (trace validation)
 //	c12 -script f.json   run an ad-hoc script of (session, sql) steps and print what the engine does (repro tool)
 package main
 
@@ -50,6 +51,12 @@ func main() {
 	script := flag.String("script", "", "ad-hoc script (JSON list of {s, sql|query|close})")
 	dir := flag.String("dir", "", "scratch directory for stores")
 	replay := flag.String("replay", "", "behaviours printed by TLC (JSON) to replay on the real engine")
+	free := flag.String("free", "", "run free concurrent sessions and write their ndjson trace to this file")
+	seed := flag.Int64("seed", 1, "seed of the free-running workload")
+	runs := flag.Int("runs", 8, "free: number of independent runs (fresh store each)")
+	workers := flag.Int("workers", 3, "free: concurrent sessions per run")
+	units := flag.Int("units", 10, "free: program units (autocommit statement or transaction) per session")
+	par := flag.Int("par", 6, "behaviours replayed in parallel (each on its own store)")
 	selftest := flag.Bool("selftest", false, "corrupt one expected value (binding self-test)")
 	flag.Parse()
 	if *dir == "" {
@@ -62,7 +69,9 @@ func main() {
 	res := vh.NewResult()
 	switch {
 	case *replay != "":
-		runReplay(*replay, *dir, *selftest, res)
+		runReplay(*replay, *dir, *selftest, *par, res)
+	case *free != "":
+		runFree(*free, *dir, *seed, *runs, *workers, *units, res)
 	default:
 		vh.Fatalf("nothing to do")
 	}
